@@ -3,6 +3,7 @@ import Driver.Bin
 import Driver.Tk
 import Driver.Train
 import Driver.Dict
+import Driver.CsvFile
 import Driver.Cli
 import Driver.Kytea
 import Driver.TrainCli
@@ -26,6 +27,8 @@ def handle (line : String) : String :=
   | "RD" :: r => runDict ("RD" :: r)
   | "WJ" :: r => runDict ("WJ" :: r)
   | "WP" :: r => runDict ("WP" :: r)
+  | "DF" :: r => runCsvFile ("DF" :: r)
+  | "LF" :: r => runCsvFile ("LF" :: r)
   | "TR" :: cfg :: _solver :: dict :: tagdict :: corpus :: _eval :: trace :: _ => runTR cfg dict tagdict corpus trace
   | "TL" :: fl :: cfg :: _solver :: tok :: part :: dict :: _ => runTL fl cfg tok part dict
   | "AC" :: _kind :: pats :: text :: _ => runAC pats text
